@@ -247,13 +247,17 @@ def main(argv):
     if unknown_failures and not violations:
         for f in unknown_failures[:5]:
             oid = f.get("oid") or f"{pid}:bounded[{f.get('check')}]"
-            path = write_replay(pid, oid + "/" + json.dumps(f.get("case"), default=str)[:80], {
+            path = write_replay(pid, oid + "/" + json.dumps(f.get("case"), default=str, sort_keys=True), {
                 "kind": "input", "input": f.get("case"), "observed": f.get("msg"),
                 "harness": {"property": pid, "case": f.get("case"), "check": f.get("check")},
                 "clause": f.get("check"), "solver": None})
             violations.append((oid, path, ""))
     # when the proof side is undecided, a bounded failure already produced the violation above
+    seen_paths = set()
     for oid, path, suffix in violations:
+        if path in seen_paths:
+            continue
+        seen_paths.add(path)
         lines.append(f"VIOLATION property={pid} replay={path}{suffix}")
     for oid, why in undecided:
         lines.append(f"UNDECIDED property={pid} obligation={oid} reason={why}")
